@@ -442,7 +442,45 @@ func runC06(c *Ctx) {
 				}
 			}
 		})
-		c.check(good, "wrap-iff-reverse@newMatcher", f.Pos(), "the negation wrapper is applied exactly under mc.Reverse", "the negation wrapper is not applied exactly when the rule is negated")
+		// every matcher that newMatcher hands out passed the negation decision: each non-nil result is the wrapper
+		// (under Reverse) or stands under !Reverse — no return before the decision
+		isRev := func(g guard) (bool, bool) {
+			v, truth := g.asBool()
+			if k, _ := loadedField(v); k == S+"MatchConfig.Reverse" {
+				return true, truth
+			}
+			if fl, ok := v.(*ssa.Field); ok {
+				if k, _ := fieldKey(fl); k == S+"MatchConfig.Reverse" {
+					return true, truth
+				}
+			}
+			return false, false
+		}
+		for _, r := range returnsOf(f) {
+			rv := returnedValues(r)
+			if len(rv) == 0 || isNilConst(rv[0]) {
+				continue
+			}
+			for _, lf := range expandCases(rv[0], nil, 0) {
+				if isNilConst(lf.val) {
+					continue
+				}
+				decided := false
+				for _, g := range append(lf.guards, guardsOfInstr(r)...) {
+					if is, truth := isRev(g); is {
+						if cl, ok := lf.val.(*ssa.Call); ok && callName(cl) == relSeq+".reverseMatcher" {
+							decided = truth
+						} else {
+							decided = !truth
+						}
+					}
+				}
+				if !decided {
+					good = false
+				}
+			}
+		}
+		c.check(good, "wrap-iff-reverse@newMatcher", f.Pos(), "every matcher handed out is wrapped exactly under mc.Reverse", "the negation wrapper is not applied exactly when the rule is negated (some matcher is returned before the Reverse decision): '!' is parsed and then ignored")
 	}
 	if f := c.fn(relSeq, "", "parseMatch"); f != nil {
 		revOK, tagOK := false, false
@@ -550,6 +588,108 @@ func runC06(c *Ctx) {
 				}
 			}
 			c.check(good, "matchers-in-order@ExecNext", instrPos(matchCall), "matchers are evaluated left to right over n.Matches", "matchers are not evaluated by a forward index range over the rule's matcher list")
+		}
+	}
+
+	// ---------------------------------------------------------------- R8
+	c.rule("R8", "the rule index advances by exactly one per visited rule: the loop index is w.p on entry and index+1 on every way back to the loop head", 1)
+	if en != nil {
+		var idxPhi *ssa.Phi
+		eachInstr(en, func(in ssa.Instruction) {
+			ia, ok := in.(*ssa.IndexAddr)
+			if !ok {
+				return
+			}
+			if k, _ := loadedField(ia.X); k != S+"ChainWalker.chain" {
+				return
+			}
+			if ph, ok := ia.Index.(*ssa.Phi); ok {
+				idxPhi = ph
+			}
+		})
+		if idxPhi == nil {
+			c.undecided("index-step", en.Pos(), "cannot find the loop index of ExecNext")
+		} else {
+			var plusK func(v ssa.Value, depth int) (int64, bool)
+			plusK = func(v ssa.Value, depth int) (int64, bool) { // v == idxPhi + k ?
+				if depth > 6 {
+					return 0, false
+				}
+				if v == ssa.Value(idxPhi) {
+					return 0, true
+				}
+				switch x := v.(type) {
+				case *ssa.BinOp:
+					if x.Op == token.ADD {
+						if n, ok := constInt(x.Y); ok {
+							if k, ok := plusK(x.X, depth+1); ok {
+								return k + n, true
+							}
+						}
+					}
+				case *ssa.Phi:
+					var k0 int64
+					for i, e := range x.Edges {
+						k, ok := plusK(e, depth+1)
+						if !ok || (i > 0 && k != k0) {
+							return 0, false
+						}
+						k0 = k
+					}
+					return k0, len(x.Edges) > 0
+				}
+				return 0, false
+			}
+			good, why := true, ""
+			nBack := 0
+			for _, e := range idxPhi.Edges {
+				if k, _ := loadedField(e); k == S+"ChainWalker.p" {
+					continue
+				}
+				k, ok := plusK(e, 0)
+				nBack++
+				if !ok || k != 1 {
+					good = false
+					why = fmt.Sprintf("a way back to the loop head carries %s (index+%d)", exprStr(e), k)
+				}
+			}
+			c.check(good && nBack > 0, "index-step", idxPhi.Pos(), "entry: w.p; every back edge: index+1", why+": after a false matcher or a plain action a rule is skipped or visited twice")
+		}
+	}
+
+	// ---------------------------------------------------------------- R9
+	c.rule("R9", "ExecNext returns only what a matcher, an action, the wrapped continuation or the pending jump-back returned, or nil at the end of the chain — and nothing else ends the walk", 4)
+	if en != nil {
+		for ri, r := range returnsOf(en) {
+			rv := returnedValues(r)
+			key := fmt.Sprintf("exec-next-return#%d", ri)
+			okAll := true
+			why := ""
+			for _, lf := range expandCases(rv[0], nil, 0) {
+				v := lf.val
+				switch x := v.(type) {
+				case *ssa.Const:
+					if !isNilConst(x) {
+						okAll, why = false, "a constant error"
+					}
+				case *ssa.Extract:
+					cl, ok := x.Tuple.(*ssa.Call)
+					if !ok || !cl.Call.IsInvoke() || cl.Call.Method.Name() != "Match" {
+						okAll, why = false, exprStr(v)
+					}
+				case *ssa.Call:
+					if x.Call.IsInvoke() && x.Call.Method.Name() == "Exec" {
+						continue
+					}
+					if staticCallee(x) == en {
+						continue
+					}
+					okAll, why = false, exprStr(v)
+				default:
+					okAll, why = false, exprStr(v)
+				}
+			}
+			c.check(okAll, key, instrPos(r), "returns a matcher's / action's / continuation's result or nil", "ExecNext returns "+why+", an error that no matcher or action produced (e.g. a guard that refuses to run the remaining rules a second time): the continuation is not reusable")
 		}
 	}
 
